@@ -31,6 +31,15 @@ add("C18", "model_checking",
     "Texts are compositions of the alphabet tokens; at most 1 (thorough 2) of the 64 KiB-class tokens per text. Trusted: the oracle's own Latin-1 conversion.",
     "bounded-exhaustive enumeration of token sequences against the statement's normalisation relation", "seq", "DESIGN.md §5 C18")
 
+add("C09", "model_checking",
+    "Deviation-bounded product over ten component alphabets of a message (To and Cc lists of 0..3 from six address forms, 9 subjects incl. Latin-1/75/76-byte/precedence/=?_ ones, 6 dates, 6 types, 9 bodies, attachment lists of 0..3 from 8 byte patterns, 6 naming schemes incl. Latin-1/255-byte/duplicate names, extra X- headers, 6 reader chunkings): every vector with <= 2 non-default components (thorough adds <= 3 with lists <= 2) is built through the public API, serialised, parsed through a chunked reader, compared (headers, body, attachments, accessors before and after) and re-serialised (byte equality).",
+    "Excluded because the format leaves latitude: header values with surrounding blanks or CR/LF, text not representable in ISO-8859-1, literal RFC 2047 encoded-words as input.",
+    "deviation-bounded exhaustive product of message components x reader chunkings; round-trip and canonicity oracle", "seq", "DESIGN.md §5 C09")
+add("C19", "model_checking",
+    "Parsing: 243 000 component tuples (6 schemes x 5 userinfo x 5 hosts x 45 digipeater paths x 5 targets x 6 query strings) composed with net/url's own escaping and parsed by the real ParseURL, every field compared; all 3.26e6 raw strings of length <= 6 over a 12-symbol alphabet for the never-panics clause. Registry/dispatch under concurrency: see level_note.",
+    "The concurrent register/unregister/dial part is decided by the govs engine (controlled scheduler over the rewritten transport package); until that part reports registry_* keys in the evidence only the parsing and refusal clauses are decided by this check.",
+    "bounded-exhaustive tuple and raw-string enumeration (parsing); schedule exploration of the registry via govs", "seq+govs", "DESIGN.md §5 C19")
+
 ids = [json.loads(l)["id"] for l in open("/verif/properties.jsonl")]
 na = [dict(property_id=i, reason="check not built yet in this session (planned, see DESIGN.md §5); not claimed until its command exists and is green") for i in ids if i not in checks]
 m = dict(version=1,
